@@ -399,6 +399,67 @@ def mk_sliding(nchunks, maxc, maxw):
     return Obligation(f"sliding_window_view[chunks={nchunks},c<={maxc},w<={maxw}]", setup, run)
 
 
+def mk_depth_spellings(maxc, maxd):
+    """the public overlap / trim_internal / map_overlap on a 2-d array with every SPELLING of the same depths (int, tuple, dict with keys in
+    ascending or descending order, dict that leaves an axis out) and chunks that may be smaller than the depth (rechunk-to-fit path):
+    lazy shape == computed shape, overlap followed by trim is the identity, map_overlap of a neighbour sum equals the NumPy stencil on
+    the padded array. Sizes reach NumPy: solver-enumerated."""
+
+    def setup(e):
+        c0 = (e.int("a0", 1, maxc), e.int("a1", 1, maxc))
+        c1 = (e.int("b0", 1, maxc), e.int("b1", 1, maxc), e.int("b2", 1, maxc))
+        d0 = e.int("d0", 0, maxd)
+        d1 = e.int("d1", 0, maxd)
+        spelling = e.pick("spelling", ("tuple", "dict_ascending", "dict_descending", "dict_only_axis0", "dict_only_axis1", "int"))
+        boundary = e.pick("boundary", ("none", "reflect", "periodic", 0))
+        return c0, c1, d0, d1, spelling, boundary
+
+    def run(e, c0, c1, d0, d1, spelling, boundary):
+        c0 = tuple(operator.index(c) for c in c0)
+        c1 = tuple(operator.index(c) for c in c1)
+        d0, d1 = operator.index(d0), operator.index(d1)
+        if spelling == "dict_only_axis0":
+            d1 = 0
+        elif spelling == "dict_only_axis1":
+            d0 = 0
+        elif spelling == "int":
+            d1 = d0
+        if d0 > sum(c0) or d1 > sum(c1):
+            return "depth larger than the axis (documented ValueError)"
+        depth = {"tuple": (d0, d1), "dict_ascending": {0: d0, 1: d1}, "dict_descending": {1: d1, 0: d0}, "dict_only_axis0": {0: d0},
+                 "dict_only_axis1": {1: d1}, "int": d0}[spelling]
+        x = np.arange(sum(c0) * sum(c1)).reshape(sum(c0), sum(c1)) * 2 + 1
+        d = da.from_array(x, chunks=(c0, c1))
+        what = f"chunks {c0} x {c1}, depth {depth!r}, boundary {boundary!r}"
+        g = OV.overlap(d, depth=depth, boundary=boundary)
+        gv = g.compute(scheduler="sync")
+        e.check(gv.shape == g.shape, f"overlap: lazy shape {g.shape} but computed shape {gv.shape} ({what})")
+        back = OV.trim_internal(g, OV.coerce_depth(2, depth), boundary)
+        bv = back.compute(scheduler="sync")
+        e.check(bv.shape == x.shape and bool((bv == x).all()), f"overlap followed by trim is not the identity ({what})")
+
+        def stencil(b):
+            out = b.copy()
+            if d0:
+                out[1:] += b[:-1]
+            if d1:
+                out[:, :-1] += b[:, 1:] * 3
+            return out
+
+        mode = {"none": None, "reflect": "symmetric", "periodic": "wrap", 0: "constant"}[boundary]
+        if mode is None:
+            return gv.shape
+        padded = np.pad(x, ((d0, d0), (d1, d1)), mode=mode)
+        want = stencil(padded)[d0:padded.shape[0] - d0, d1:padded.shape[1] - d1]
+        r = da.map_overlap(stencil, d, depth=depth, boundary=boundary, dtype=x.dtype)
+        rv = r.compute(scheduler="sync")
+        e.check(rv.shape == want.shape and bool((rv == want).all()), f"map_overlap differs from the stencil on the padded array ({what})")
+        e.check(r.shape == want.shape, f"map_overlap: lazy shape {r.shape} != {want.shape} ({what})")
+        return gv.shape
+
+    return Obligation(f"depth_spellings[2x3 blocks,c<={maxc},depth<={maxd}]", setup, run)
+
+
 def obligations(tier):
     obs = []
     if tier == "quick":
@@ -408,9 +469,9 @@ def obligations(tier):
                 obs.append(mk_layer((n,), (k,)))
         obs.append(mk_layer((2, 2), ("int", "tuple")))
         obs.append(mk_layer((2, 2), ("zero", "int")))
-        obs += [mk_sliding(2, 4, 5), mk_sliding(3, 3, 4)]
+        obs += [mk_sliding(2, 4, 5), mk_sliding(3, 3, 4), mk_depth_spellings(2, 2)]
     else:
-        obs += [mk_sliding(2, 6, 7), mk_sliding(3, 4, 6), mk_sliding(4, 3, 5)]
+        obs += [mk_sliding(2, 6, 7), mk_sliding(3, 4, 6), mk_sliding(4, 3, 5), mk_depth_spellings(2, 4)]
         obs += [mk_min_chunksize(n) for n in (1, 2, 3, 4, 5)]
         for n in (1, 2, 3, 4):
             for k in ("int", "tuple"):
